@@ -14,7 +14,7 @@ MOD = "vpcheck.checks.c14"
 
 
 def tasks(tier, seed):
-    n = 1600 if tier == "quick" else 32000
+    n = 1000 if tier == "quick" else 32000
     shards = 48 if tier == "quick" else 192
     return [("vpcheck.checks.c14m", "hyp", (n // shards, seed * 1_000_003 + 7000 + i, tier)) for i in range(shards)]
 
